@@ -157,6 +157,10 @@ def _run(case, modname, devs):
         name_arg = None
     else:
         name_arg = full
+        if case.get('decoy_env'):
+            # an explicit backend name beats MIDO_BACKEND completely: neither the module named there nor its API suffix
+            # may show up anywhere (the decoy module does not exist - importing it would raise)
+            os.environ['MIDO_BACKEND'] = 'c20_no_such_backend_module/DECOYAPI'
     facts = dict(fn=fn, entry=case['entry'])
     n_before = len(EVENTS)
     # ---- history: earlier selections of the SAME module (other api), optionally used so that the module is loaded ----
@@ -395,6 +399,10 @@ def grid_shard(rec, shard):
                     c = dict(case)
                     c['prelude'] = pre
                     rec.check(c, distinct=True, sample=False, classes=('history',))
+            if case['name_via'] == 'explicit' and i % 2 == 0:
+                c = dict(case)
+                c['decoy_env'] = True
+                rec.check(c, distinct=True, sample=False, classes=('decoy-MIDO_BACKEND',))
             if case['entry'] == 'set_backend_obj' and i % 3 == 0:
                 c = dict(case)
                 c['subclass'] = True
